@@ -298,7 +298,7 @@ func genC18Cfg(t *rapid.T) c18cfg {
 	cfg.Locus = genBytesSmallAlpha(n).Draw(t, "locus")
 	cfg.Min = rapid.SampledFrom([]int{0, 0, 1, 1, 2}).Draw(t, "min")
 	floor := 8 * n * cfg.Min
-	switch rapid.IntRange(0, 5).Draw(t, "maxKind") {
+	switch rapid.SampledFrom([]int{0, 1, 2, 3, 4, 4, 4, 5}).Draw(t, "maxKind") {
 	case 0:
 		cfg.Max = floor // boundary the constructor accepts
 	case 1:
@@ -370,8 +370,8 @@ func TestC18Model(t *testing.T) {
 				pool = append(pool, k)
 				clock += rapid.IntRange(0, 2).Draw(t, "dt")
 				exp := 0
-				if rapid.Bool().Draw(t, "expiring") {
-					exp = clock + rapid.IntRange(-1, 6).Draw(t, "ttl")
+				if rapid.IntRange(0, 3).Draw(t, "expiring") > 0 {
+					exp = clock + rapid.SampledFrom([]int{-1, 0, 1, 2, 3, 6, 12, 30}).Draw(t, "ttl")
 					if exp <= 0 {
 						exp = 1
 					}
@@ -406,7 +406,7 @@ func TestC18Model(t *testing.T) {
 				check(c18op{Kind: "delete", Key: genC18Key(t, cfg, pool)})
 			},
 			"expire": func(t *rapid.T) {
-				clock += rapid.IntRange(0, 3).Draw(t, "dt")
+				clock += rapid.IntRange(0, 5).Draw(t, "dt")
 				check(c18op{Kind: "expire", Now: clock})
 			},
 			"get": func(t *rapid.T) {
